@@ -191,6 +191,13 @@ func oracle(c *Case) (facts, error) {
 	runQuery := func(h *handle, qi int, prepare bool) error {
 		q := c.Queries[h.file][qi%len(c.Queries[h.file])]
 		text := queryparser.QueryToString(&pb.Query{Expr: fix.ToPB(q.Expr), GroupBy: q.GroupBy})
+		var args []any
+		if q.Expr.Op == model.OpEq && qi%2 == 1 {
+			// the same comparison with the value passed as a bound argument;
+			// goroutines of one burst pass different arguments at the same time
+			text = queryparser.QueryToString(&pb.Query{Expr: &pb.Query_Expression{Value: &pb.Query_Expression_Eq{Eq: &pb.Query_Expression_Equal{Column: q.Expr.Col, Placeholder: 1}}}, GroupBy: q.GroupBy})
+			args = []any{q.Expr.Val}
+		}
 		var got *fix.SQLRows
 		err := fix.Safe(func() error {
 			var r *sql.Rows
@@ -201,9 +208,9 @@ func oracle(c *Case) (facts, error) {
 					return pe
 				}
 				defer st.Close()
-				r, e = st.Query()
+				r, e = st.Query(args...)
 			} else {
-				r, e = h.db.Query(text)
+				r, e = h.db.Query(text, args...)
 			}
 			if e != nil {
 				return e
@@ -440,6 +447,10 @@ func drawCase(t *rapid.T, maxActs int) *Case {
 		d := model.NewData(spec.Rows())
 		pool := gen.NewLeafPool(d)
 		var qs []Q
+		for k := 0; k < 4; k++ {
+			// plain comparisons (run with the value as a bound argument half of the time)
+			qs = append(qs, Q{Expr: pool.Leaf(t, gen.ExprOpts{})})
+		}
 		for k := 0; k < 5; k++ {
 			q := Q{Expr: pool.Expr(t, gen.ExprOpts{MaxDepth: 3})}
 			if rapid.Bool().Draw(t, "gb") && spec.Recipe == nil {
@@ -480,9 +491,9 @@ func drawCase(t *rapid.T, maxActs int) *Case {
 		slot := slots[rapid.IntRange(0, len(slots)-1).Draw(t, "slot")]
 		switch {
 		case k < 5:
-			c.Acts = append(c.Acts, Act{Kind: AQuery + rapid.IntRange(0, 1).Draw(t, "prep"), Slot: slot, Q: rapid.IntRange(0, 4).Draw(t, "q")})
+			c.Acts = append(c.Acts, Act{Kind: AQuery + rapid.IntRange(0, 1).Draw(t, "prep"), Slot: slot, Q: rapid.IntRange(0, 8).Draw(t, "q")})
 		case k < 7:
-			c.Acts = append(c.Acts, Act{Kind: ABurst, Slot: slot, N: rapid.IntRange(2, 16).Draw(t, "n"), Q: rapid.IntRange(0, 4).Draw(t, "q")})
+			c.Acts = append(c.Acts, Act{Kind: ABurst, Slot: slot, N: rapid.IntRange(2, 16).Draw(t, "n"), Q: rapid.IntRange(0, 8).Draw(t, "q")})
 		case k < 8:
 			c.Acts = append(c.Acts, Act{Kind: ASetPool, Slot: slot, MaxOpen: rapid.IntRange(0, 4).Draw(t, "maxopen"), MaxIdle: rapid.IntRange(0, 4).Draw(t, "maxidle")})
 		default:
